@@ -2,7 +2,8 @@
    Part A (abstract model, anchored in internal/archiver/archiver.go save/saveDir, file_saver.go
    saveFile (chunks in position order), internal/restorer/restorer.go RestoreTo first pass with the
    hard-link index, filerestorer.go blob lookups): backup = chunk, hash, node construction, tree build;
-   restore = traversal in tree order, hard-link index, blob lookups, size verification.
+   restore = traversal in tree order, hard-link indexes (regular files in the first pass, symlinks and
+   devices in the second pass), blob lookups, size verification.
    Part B (executable): expected snapshot listing (node construction of internal/fs/node.go
    buildBasicNode/nodeFillExtendedStat, name order of the tree builder) and the verified oracle
    on source / restored listings.  Executable model only. *)
@@ -18,9 +19,9 @@ Record meta := mkM { m_mode : N; m_mtime_s : Z; m_mtime_ns : N; m_uid : N; m_gid
 Inductive payload :=
   | PFile (data : bytes) (ino dev nlink : N)
   | PDir
-  | PSymlink (target : bytes)
-  | PDev (chr : bool) (devno : N)
-  | PFifo.
+  | PSymlink (target : bytes) (ino dev nlink : N)
+  | PDev (chr : bool) (devno : N) (ino dev nlink : N)
+  | PFifo.          (* fs.nodeFillExtendedStat records no link count for fifos *)
 
 (* directory contents as first-child / next-sibling *)
 Inductive tree := Nil | Node (name : bytes) (p : payload) (m : meta) (sub rest : tree).
@@ -28,8 +29,8 @@ Inductive tree := Nil | Node (name : bytes) (p : payload) (m : meta) (sub rest :
 Inductive ncontent :=
   | NFile (ids : list N) (size ino dev links : N)
   | NDir
-  | NSymlink (target : bytes)
-  | NDev (chr : bool) (devno : N)
+  | NSymlink (target : bytes) (ino dev links : N)
+  | NDev (chr : bool) (devno : N) (ino dev links : N)
   | NFifo.
 
 Inductive stree := SNil | SNode (name : bytes) (c : ncontent) (m : meta) (sub rest : stree).
@@ -55,8 +56,8 @@ Section Abstract.
     match p with
     | PFile d i dv n => NFile (map H (chunk d)) (N.of_nat (length d)) i dv n
     | PDir => NDir
-    | PSymlink t => NSymlink t
-    | PDev c d => NDev c d
+    | PSymlink t i dv n => NSymlink t i dv n
+    | PDev c d i dv n => NDev c d i dv n
     | PFifo => NFifo
     end.
 
@@ -99,12 +100,26 @@ Section Abstract.
     | None => None
     end.
 
-  (* first pass in tree order; the index maps (inode, device) of multiply linked files to the
-     content at the first location, later locations become hard links to it *)
-  Fixpoint restore (st : list (list (N * bytes))) (s : stree) (ix : list (key * bytes))
-    : option (tree * list (key * bytes)) :=
+  (* second pass: the first location of a multiply linked symlink / device is created from its
+     node and remembered; later locations become hard links to it (they show what the first shows) *)
+  Definition place (links : N) (k : key) (own : payload) (sx : list (key * payload))
+    : payload * list (key * payload) :=
+    if N.ltb 1 links then
+      match lookup k sx with
+      | Some p => (p, sx)
+      | None => (own, (k, own) :: sx)
+      end
+    else (own, sx).
+
+  (* Both passes walk the snapshot in the same tree order and their indexes are independent, so
+     they are folded into one traversal with two indexes: [ix] maps (inode, device) of multiply
+     linked regular files to the content at the first location (first pass), [sx] does the same
+     for symlinks and devices (second pass). *)
+  Fixpoint restore (st : list (list (N * bytes))) (s : stree)
+                   (ix : list (key * bytes)) (sx : list (key * payload))
+    : option (tree * list (key * bytes) * list (key * payload)) :=
     match s with
-    | SNil => Some (Nil, ix)
+    | SNil => Some (Nil, ix, sx)
     | SNode n c m sub rest =>
         match c with
         | NFile ids size i dv links =>
@@ -120,40 +135,42 @@ Section Abstract.
             match r with
             | None => None
             | Some (d, ix1) =>
-                match restore st rest ix1 with
+                match restore st rest ix1 sx with
                 | None => None
-                | Some (rest', ix2) => Some (Node n (PFile d i dv links) m Nil rest', ix2)
+                | Some (rest', ix2, sx2) => Some (Node n (PFile d i dv links) m Nil rest', ix2, sx2)
                 end
             end
         | NDir =>
-            match restore st sub ix with
+            match restore st sub ix sx with
             | None => None
-            | Some (sub', ix1) =>
-                match restore st rest ix1 with
+            | Some (sub', ix1, sx1) =>
+                match restore st rest ix1 sx1 with
                 | None => None
-                | Some (rest', ix2) => Some (Node n PDir m sub' rest', ix2)
+                | Some (rest', ix2, sx2) => Some (Node n PDir m sub' rest', ix2, sx2)
                 end
             end
-        | NSymlink t =>
-            match restore st rest ix with
+        | NSymlink t i dv links =>
+            let '(p, sx1) := place links (i, dv) (PSymlink t i dv links) sx in
+            match restore st rest ix sx1 with
             | None => None
-            | Some (rest', ix2) => Some (Node n (PSymlink t) m Nil rest', ix2)
+            | Some (rest', ix2, sx2) => Some (Node n p m Nil rest', ix2, sx2)
             end
-        | NDev ch d =>
-            match restore st rest ix with
+        | NDev ch d i dv links =>
+            let '(p, sx1) := place links (i, dv) (PDev ch d i dv links) sx in
+            match restore st rest ix sx1 with
             | None => None
-            | Some (rest', ix2) => Some (Node n (PDev ch d) m Nil rest', ix2)
+            | Some (rest', ix2, sx2) => Some (Node n p m Nil rest', ix2, sx2)
             end
         | NFifo =>
-            match restore st rest ix with
+            match restore st rest ix sx with
             | None => None
-            | Some (rest', ix2) => Some (Node n PFifo m Nil rest', ix2)
+            | Some (rest', ix2, sx2) => Some (Node n PFifo m Nil rest', ix2, sx2)
             end
         end
     end.
 
   Definition restore_backup (c : cfg) (t : tree) : option tree :=
-    match restore (store c t) (snap t) [] with Some (t', _) => Some t' | None => None end.
+    match restore (store c t) (snap t) [] [] with Some (t', _, _) => Some t' | None => None end.
 End Abstract.
 
 (* ================= Part B ================= *)
@@ -244,7 +261,8 @@ Definition node_of_ent (e : ent) : snode :=
   let t := e_type e in
   mkSN (e_path e) t
        (if is_file e then e_size e else 0)
-       (if N.eqb t 0 || N.eqb t 2 || N.eqb t 3 || N.eqb t 4 then e_nlink e else 0)
+       (if N.eqb t 0 || N.eqb t 2 || N.eqb t 3 || N.eqb t 4
+           || (N.eqb t 5 && Z.eqb ParamsC01.fifo_links_recorded 1) then e_nlink e else 0)
        (e_ino e)
        (N.land (e_mode e) (Z.to_N ParamsC01.mode_mask))
        (e_mt_s e) (e_mt_ns e) (e_uid e) (e_gid e)
